@@ -37,6 +37,7 @@ def run(prog, rep, tier='quick'):
     rep.rule('conj', 'lag values carry amplitude/phase exponents (x:1,+1 ; y:1,-1); no operation combines different exponents')
     rep.rule('norm', 'size signature per lag as documented; k=0 special case == general formula at k=0')
     rep.rule('lags', 'origin (lag 0) index of numerator, divisor and returned lags all equal maxlags; lengths 2*maxlags+1')
+    rep.rule('admission', 'no guard on (N, maxlags) raises for maxlags in 0..N-1')
     rep.rule('corrmtx-shape', 'rows N+m / N / N / N-m / 2(N-m) and m+1 columns')
     seen = set()
     f = prog.func('correlation', 'CORRELATION')
@@ -263,6 +264,13 @@ def run(prog, rep, tier='quick'):
               else:
                   rep.violation('corrmtx-shape', h.qname, label, 'shape %s x %s, documented %s x %s' % (got[0], got[1], want[0], want[1]),
                                 loc(h.mod, h.node))
+    # maxlags in [0, N-1] is admitted
+    from ..d1rules import admission_of
+    grid = [{'N': n_, 'La': l_} for n_ in range(2, 10) for l_ in range(0, n_)]
+    for fname in ('CORRELATION', 'xcorr'):
+        admission_of(rep, prog, 'admission', 'correlation', fname,
+                     lambda: ([C.data(True, label='x')], {'maxlags': IntV(Aff.sym('La'), frozenset(['lag'])), 'norm': Const('biased')}), grid,
+                     lambda w: 'N = %d, maxlags = %d' % (w['N'], w['La']), seen)
     from ..prims import USED
     rep.trusted += sorted(USED)
     rep.floor('pad obligations', n_pad, 4)
